@@ -14,6 +14,7 @@ from gwf.plugins.touch import touch_workflow
 from gwf.scheduling import get_status_map, submit_workflow
 
 META = {
+    "solver_reasoned": 'chain length (symbolic int) in the depth query; otherwise selectors (roles incl. self-loops) and existence bits.',
     "real": ["gwf.core.Graph.from_targets", "gwf.core.check_for_circular_dependencies", "gwf.core.Graph.dfs/endpoints", "gwf.scheduling.get_status_map/submit_workflow/schedule",
              "gwf.plugins.touch.touch_workflow", "gwf.plugins.{run,status,clean,touch,cancel,info}.* (bodies) on ill-formed worlds"],
     "stubs": ["VFS for file existence and for observing side effects", "scheduler simulator for observing submissions/cancellations", "recording backend for the depth query"],
